@@ -30,7 +30,8 @@ LevelATrees == {ToFile(Plug(f, Marker(f.in)), f.out) : f \in AllFrames}
 \* (parameterised so that TLC does not pre-evaluate it when LevelB is off)
 LevelBTrees(dummy) == UNION {{ToFile(Plug(f2, Plug(f1, Marker(f1.in))), f2.out) :
                           f2 \in {g \in AllFrames : Fits(f1.out, g.in) /\ ~CalleeOfType(f1, g)}} : f1 \in AllFrames}
-Trees == LevelATrees \cup (IF LevelB THEN LevelBTrees(0) ELSE {})
+\* nesting depth 64 (every deep frame plugged into itself 64 times around the marker)
+Trees == LevelATrees \cup DeepTrees(64, ME, MS) \cup (IF LevelB THEN LevelBTrees(0) ELSE {})
 
 TargetSets == {AllTargets, {"PostIncrement"}, {"Expression", "VariableDefinition", "Block"}}
 
